@@ -358,4 +358,12 @@ Section RewriteProofs.
     unfold prune, kept, paths. induction t as [|x r IH]; [reflexivity|]. cbn [flat_map].
     rewrite flat_map_app, !map_app, IH. f_equal. eapply prune_paths_node. apply Nat.le_refl.
   Qed.
+  Lemma rewrite_top path t : excl path true = false ->
+    let r := result_tree t (rewrite_tree excl modn path t) in
+    r = prune path t /\
+    map (fun pn => (fst pn, strip (snd pn))) (paths path r) =
+    map (fun pn => (fst pn, strip_mod (snd pn))) (kept path t).
+  Proof.
+    intro H. cbv zeta. rewrite (rewrite_value path t H). split; [reflexivity | apply prune_paths].
+  Qed.
 End RewriteProofs.
